@@ -247,6 +247,168 @@ def main():
     except Exception as e:
         out["mismatch"].append({"what": "descriptor-list-raised", "struct": "BinaryFieldDescriptor", "member": "", "detail": repr(e)})
 
+    # ---- 5. accessors that search / index a C array: write through python on element i, verify in raw memory (addresses and
+    #         offsets from the C side: r->var_config, r->particles, sizeof/offsetof by gcc) that exactly the intended bytes of
+    #         exactly element i changed, and read back
+    out["checked"]["indexed"] = 0
+    vc = "reb_variational_configuration"
+    try:
+        vstride = job["csize"][vc][0]; pstride = job["csize"]["reb_particle"][0]
+        voff = {m: co[vc][m][0] for m in ("order", "index", "testparticle", "index_1st_order_a", "index_1st_order_b", "lrescale")}
+        off_vcp = co["reb_simulation"]["var_config"][0]; off_nvc = co["reb_simulation"]["N_var_config"][0]
+        off_pp = co["reb_simulation"]["particles"][0]; off_N = co["reb_simulation"]["N"][0]
+        poff = {m: co["reb_particle"][m][0] for m in ("x", "m", "hash")}
+    except KeyError as e:
+        out["mismatch"].append({"what": "indexed-no-c-side", "struct": "Variation", "member": "", "detail": repr(e)})
+        vstride = None
+
+    def bad(struct_, member, detail):
+        out["mismatch"].append({"what": "indexed-accessor", "struct": struct_, "member": member, "detail": detail})
+
+    def diff_ranges(a, b):
+        return [i for i in range(min(len(a), len(b))) if a[i] != b[i]] + ([-1] if len(a) != len(b) else [])
+
+    def mk():
+        s_ = rebound.Simulation()
+        s_.add(m=1.); s_.add(m=1e-3, a=1., e=0.05); s_.add(m=2e-3, a=2.3, e=0.1, f=1.)
+        s_.move_to_com()
+        return s_
+
+    def scenario(name):
+        s_ = mk(); objs = []
+        if name == "k1":
+            objs.append(s_.add_variation())
+        elif name == "k2-megno":
+            s_.init_megno(seed=3); objs.append(None); objs.append(s_.add_variation())
+        elif name == "k3-second":
+            a = s_.add_variation(); b = s_.add_variation()
+            objs += [a, b, s_.add_variation(order=2, first_order=a, first_order_2=b)]
+        elif name == "k4-mixed":
+            a = s_.add_variation(); t = s_.add_variation(testparticle=2); b = s_.add_variation()
+            objs += [a, t, b, s_.add_variation(order=2, first_order=a, first_order_2=b)]
+        return s_, objs
+
+    if vstride is not None:
+        for sc in ("k1", "k2-megno", "k3-second", "k4-mixed"):
+            try:
+                s_, objs = scenario(sc)
+            except Exception as e:
+                bad("Variation", "add_variation", "scenario %s raised %r" % (sc, e)); continue
+            b_ = ctypes.addressof(s_)
+            k = ctypes.c_uint.from_address(b_ + off_nvc).value
+            if k != len(objs):
+                bad("Variation", "N_var_config", "scenario %s: C N_var_config=%d, python created %d sets" % (sc, k, len(objs))); continue
+            vbase = lambda: ctypes.c_void_p.from_address(b_ + off_vcp).value
+            pbase = lambda: ctypes.c_void_p.from_address(b_ + off_pp).value
+            npart = lambda: ctypes.c_uint.from_address(b_ + off_N).value
+            varr = lambda: ctypes.string_at(vbase(), k * vstride)
+            parr = lambda: ctypes.string_at(pbase(), npart() * pstride)
+            cint = lambda i, m: ctypes.c_int.from_address(vbase() + i * vstride + voff[m]).value
+            cdbl = lambda i: ctypes.c_double.from_address(vbase() + i * vstride + voff["lrescale"]).value
+            serial = [0]
+            for i in range(k):
+                handles = [("sim.var_config[%d]" % i, s_.var_config[i])]
+                if objs[i] is not None:
+                    handles.append(("add_variation()#%d" % i, objs[i]))
+                for hname, h in handles:
+                    # plain fields of the handle describe C element i
+                    for m in ("order", "index", "testparticle", "index_1st_order_a", "index_1st_order_b"):
+                        out["checked"]["indexed"] += 1
+                        if getattr(h, m) != cint(i, m):
+                            bad("Variation", m, "%s %s.%s reads %r, C var_config[%d].%s = %r" % (sc, hname, m, getattr(h, m), i, m, cint(i, m)))
+                    # property lrescale: write a distinct value, exactly the 8 bytes of element i's lrescale may change
+                    out["checked"]["indexed"] += 1
+                    serial[0] += 1
+                    val = -(1.0 + serial[0] / 16.0)
+                    v0, p0 = varr(), parr()
+                    try:
+                        h.lrescale = val
+                        back = h.lrescale
+                    except Exception as e:
+                        bad("Variation", "lrescale", "%s %s.lrescale = %r raised %r" % (sc, hname, val, e)); continue
+                    v1, p1 = varr(), parr()
+                    lo = i * vstride + voff["lrescale"]
+                    changed = diff_ranges(v0, v1)
+                    if cdbl(i) != val:
+                        bad("Variation", "lrescale", "%s: wrote %r through %s.lrescale; C var_config[%d].lrescale (of %d sets) holds %r" % (sc, val, hname, i, k, cdbl(i)))
+                    if [c for c in changed if not (lo <= c < lo + 8)] or diff_ranges(p0, p1):
+                        bad("Variation", "lrescale", "%s: %s.lrescale = %r changed bytes %s of the var_config array outside element %d's lrescale (particles changed: %s)" % (sc, hname, val, [c for c in changed if not (lo <= c < lo + 8)][:6], i, bool(diff_ranges(p0, p1))))
+                    if back != val:
+                        bad("Variation", "lrescale", "%s: %s.lrescale = %r reads back %r" % (sc, hname, val, back))
+                    # property particles: element j of the view is C particle index_i + j
+                    try:
+                        ps = h.particles
+                        want_n = 1 if cint(i, "testparticle") >= 0 else npart() - ctypes.c_int.from_address(b_ + co["reb_simulation"]["N_var"][0]).value
+                        if len(ps) != want_n:
+                            bad("Variation", "particles", "%s: len(%s.particles)=%d, expected %d" % (sc, hname, len(ps), want_n))
+                        for j in range(len(ps)):
+                            out["checked"]["indexed"] += 1
+                            serial[0] += 1
+                            val = 100.0 + serial[0] / 8.0
+                            p0 = parr(); v0 = varr()
+                            ps[j].x = val
+                            p1 = parr(); v1 = varr()
+                            lo = (cint(i, "index") + j) * pstride + poff["x"]
+                            ch = diff_ranges(p0, p1)
+                            got = ctypes.c_double.from_address(pbase() + lo).value
+                            if got != val or [c for c in ch if not (lo <= c < lo + 8)] or diff_ranges(v0, v1):
+                                bad("Variation", "particles", "%s: %s.particles[%d].x = %r; C particles[%d].x holds %r; other bytes changed: %s" % (sc, hname, j, val, cint(i, "index") + j, got, [c for c in ch if not (lo <= c < lo + 8)][:6]))
+                    except Exception as e:
+                        bad("Variation", "particles", "%s %s.particles raised %r" % (sc, hname, e))
+            # every handle still reads its own last value (no write landed on a neighbour)
+            for i in range(k):
+                if objs[i] is not None and objs[i].lrescale != cdbl(i):
+                    bad("Variation", "lrescale", "%s: add_variation()#%d.lrescale reads %r but C var_config[%d].lrescale = %r" % (sc, i, objs[i].lrescale, i, cdbl(i)))
+
+        # sim.particles[key] (index, negative index, string hash, c_uint32 hash) and Particle.hash
+        try:
+            s_ = rebound.Simulation()
+            names = ["sun", "b", "c", "d", "e"]
+            for n_, nm in enumerate(names):
+                s_.add(m=1.0 / (n_ + 1), x=float(n_), hash=nm)
+            b_ = ctypes.addressof(s_)
+            pbase = ctypes.c_void_p.from_address(b_ + off_pp).value
+            N = len(names)
+            parr = lambda: ctypes.string_at(pbase, N * pstride)
+            clib.reb_hash.restype = ctypes.c_uint32
+            serial = 0
+            for i, nm in enumerate(names):
+                h32 = clib.reb_hash(nm.encode("ascii"))
+                rawh = ctypes.c_uint32.from_address(pbase + i * pstride + poff["hash"]).value
+                out["checked"]["indexed"] += 1
+                if rawh != h32:
+                    bad("Particle", "hash", "add(hash=%r) on particle %d: C particles[%d].hash = %d, reb_hash = %d" % (nm, i, i, rawh, h32))
+                for kname, key in (("[%d]" % i, i), ("[%d]" % (i - N), i - N), ("[%r]" % nm, nm), ("[c_uint32(%d)]" % h32, ctypes.c_uint32(h32))):
+                    out["checked"]["indexed"] += 1
+                    serial += 1
+                    val = 7.0 + serial / 32.0
+                    p0 = parr()
+                    s_.particles[key].m = val
+                    p1 = parr()
+                    lo = i * pstride + poff["m"]
+                    got = ctypes.c_double.from_address(pbase + lo).value
+                    ch = [c for c in diff_ranges(p0, p1) if not (lo <= c < lo + 8)]
+                    if got != val or ch or s_.particles[key].m != val:
+                        bad("Particles", "__getitem__", "sim.particles%s.m = %r: C particles[%d].m holds %r; other bytes changed: %s" % (kname, val, i, got, ch[:6]))
+                # Particle.hash setter: string, int, c_uint32
+                for hv, want in ((nm + "_x", clib.reb_hash((nm + "_x").encode("ascii"))), (1000 + i, 1000 + i), (ctypes.c_uint32(2000 + i), 2000 + i)):
+                    out["checked"]["indexed"] += 1
+                    p0 = parr()
+                    s_.particles[i].hash = hv
+                    p1 = parr()
+                    lo = i * pstride + poff["hash"]
+                    got = ctypes.c_uint32.from_address(pbase + lo).value
+                    ch = [c for c in diff_ranges(p0, p1) if not (lo <= c < lo + 4)]
+                    back = s_.particles[i].hash.value
+                    if got != want or ch or back != want:
+                        bad("Particle", "hash", "sim.particles[%d].hash = %r: C particles[%d].hash holds %d (expected %d), reads back %d; other bytes changed: %s" % (i, getattr(hv, "value", hv), i, got, want, back, ch[:6]))
+                    found = ctypes.addressof(s_.particles[ctypes.c_uint32(want)])
+                    if found != pbase + i * pstride:
+                        bad("Particles", "__getitem__", "lookup by hash %d returns address %#x, C particles[%d] is at %#x" % (want, found, i, pbase + i * pstride))
+        except Exception as e:
+            bad("Particles", "__getitem__", "particle container probe raised %r" % (e,))
+
+
     # ---- 4. symbols resolve in the loaded library
     for mod, sym in job["symbols"]:
         if mod in job["dead_modules"]:
